@@ -147,6 +147,9 @@ func (interp *Interpreter) importSrc(rPath, importPath string, skipTest bool) (s
 	interp.mutex.Unlock()
 
 	// Once all package sources have been parsed, execute entry points then init functions.
+	// As in Execute, the global frame first joins the current run, otherwise nothing
+	// runs here after an earlier evaluation was cancelled.
+	interp.frame.setrunid(interp.runid())
 	for _, n := range rootNodes {
 		if err = genRun(n); err != nil {
 			return "", err
